@@ -1080,14 +1080,30 @@ class FusedBlockwiseLayer:
                 holed[ck] = FusedBlockwiseLayer._node_fingerprint(task, {})
         return holed, cout
 
+    def _inner_ragged(self):
+        """Whether any expression fused into this group has a ragged (or unknown)
+        chunking on some axis.  The group's OUTPUT chunks can be uniform while an
+        inner creation op's are not (``nansum(ones(6, chunks=(1, 2, 1, 1, 1)))``:
+        the chunk stage emits one element per block), and it is the inner op that
+        bakes its block shape into the subgraph."""
+        for e in getattr(self.expr, "exprs", ()):
+            try:
+                for dim in e.chunks:
+                    if len(dim) > 1 and len(set(dim)) > 1:
+                        return True
+            except Exception:
+                return True
+        return False
+
     def _probe_blocks(self, numblocks):
         zero = tuple(0 for _ in numblocks)
         probes = {zero, tuple(n - 1 for n in numblocks)}
         axis_chunks = self._axis_chunks()
+        inner_ragged = self._inner_ragged()
         for i, n in enumerate(numblocks):
             if n > 1:
                 sizes = axis_chunks[i] if i < len(axis_chunks) else None
-                if sizes is None or len(set(sizes)) > 1:
+                if inner_ragged or sizes is None or len(set(sizes)) > 1:
                     # A ragged (or unknown) axis: a block whose size differs can sit
                     # anywhere (chunks=(2, 1, 2, 2)), and a fused creation op bakes the
                     # block shape into the subgraph, so every position must be probed.
